@@ -7,6 +7,7 @@ mod core;
 mod emit;
 mod explore;
 mod mats;
+mod opq;
 mod real;
 mod bez;
 mod scen;
